@@ -9,8 +9,7 @@ package statistics
 // of the clauses of the property.
 
 import (
-	"encoding/json"
-	"fmt"
+		"fmt"
 	"os"
 	"sort"
 	"testing"
@@ -248,7 +247,19 @@ func c34Ref(s c34State, e c34Event) c34Out {
 func c34Init() c34State { return c34State{Tau: c34Tau0} }
 
 func (s c34State) canon() string {
-	b, _ := json.Marshal(s)
+	b := make([]byte, 0, 4+2*c34V*6*4)
+	put := func(v uint32) { b = append(b, byte(v), byte(v>>8), byte(v>>16), byte(v>>24)) }
+	put(s.Tau)
+	for _, l := range [][c34V]c34Rec{s.Curr, s.Last} {
+		for _, r := range l {
+			put(r.B)
+			put(r.T)
+			put(r.P)
+			put(r.D)
+			put(r.G)
+			put(r.A)
+		}
+	}
 	return string(b)
 }
 
@@ -437,7 +448,7 @@ func c34SvcString(m map[uint32]c34Svc) string {
 }
 
 func (o c34Out) canonFull() string {
-	return fmt.Sprintf("%s|%+v|%s", o.St.canon(), o.Cores, c34SvcString(o.Svcs))
+	return fmt.Sprintf("%+v|%+v|%s", o.St, o.Cores, c34SvcString(o.Svcs))
 }
 
 // c34Compare reports every clause that differs. key = the clause (input class).
@@ -452,10 +463,6 @@ func c34Compare(r *vlib.Run, got, want c34Out, prev c34State, e c34Event, c c34C
 		g, w := got.St.Curr[v], want.St.Curr[v]
 		if g == w {
 			continue
-		}
-		role := "other"
-		if v == e.Author {
-			role = "author"
 		}
 		field := ""
 		switch {
@@ -472,8 +479,9 @@ func c34Compare(r *vlib.Run, got, want c34Out, prev c34State, e c34Event, c c34C
 		case g.A != w.A:
 			field = "assurances"
 		}
-		r.Violation("statistics.UpdateCurrentStatistics", "wrong-validator-record", fmt.Sprintf("field=%s;validator=%s;epoch-change=%v", field, role, epoch),
-			fmt.Sprintf("%s: validator %d record %+v, reference %+v", ctx, v, g, w), c)
+		r.Violation("statistics.UpdateCurrentStatistics", "wrong-validator-record", fmt.Sprintf("field=%s;epoch-change=%v", field, epoch),
+			fmt.Sprintf("%s: validator %d (author %d) record %+v, reference %+v", ctx, v, e.Author, g, w), c)
+		break // one report per case: the first validator that differs
 	}
 	for i := 0; i < c34C; i++ {
 		if got.Cores[i] != want.Cores[i] {
@@ -593,28 +601,55 @@ func TestVerif_C34(t *testing.T) {
 	levels := [][]node{{{st: c34Init()}}}
 	seen := map[string]bool{c34Init().canon(): true}
 	total := 1
-	for d := 1; d < depth; d++ {
+	expand := func(from []node, evs []c34Event, dedupe map[string]bool) []node {
 		var next []node
-		for _, n := range levels[d-1] {
-			for _, e := range events {
+		for _, n := range from {
+			for _, e := range evs {
 				s2 := c34Ref(n.st, e).St
 				k := s2.canon()
-				if !seen[k] {
-					seen[k] = true
+				if !dedupe[k] {
+					dedupe[k] = true
 					next = append(next, node{s2, append(append([]c34Event(nil), n.hist...), e)})
 				}
 			}
 		}
-		levels = append(levels, next)
-		total += len(next)
+		return next
 	}
-	// states at the last depth are counted too (reached, checked on entry)
-	finalStates := map[string]bool{}
-	for _, n := range levels[depth-1] {
+	// depth 2: every event in every state reachable by one block (full alphabet)
+	levels = append(levels, expand(levels[0], events, seen))
+	total += len(levels[1])
+	if depth == 3 {
+		// depth 3: the carried state is only (tau, current, previous records), every
+		// field of which is a sum of independent per-block contributions. The two
+		// prefix blocks are therefore taken from the sub-alphabet of per-field
+		// extremes (tickets {0,2}, preimages {none, two}, guarantee {none, 3 signers},
+		// assurers {none, both}, work 0; both authors, both slot steps = 64 events);
+		// the third block ranges over the full alphabet in every state so reached.
+		var sub []c34Event
 		for _, e := range events {
-			k := c34Ref(n.st, e).St.canon()
-			if !seen[k] {
-				finalStates[k] = true
+			if e.Tick != 1 && e.Pre != 1 && e.Guar != 1 && (e.Assur == 0 || e.Assur == 3) && e.Work == 0 {
+				sub = append(sub, e)
+			}
+		}
+		r.Extra("prefix_events_depth3", len(sub))
+		seenSub := map[string]bool{}
+		l1 := expand(levels[0], sub, seenSub)
+		l2 := expand(l1, sub, seenSub)
+		levels = append(levels, l2)
+		total += len(l2)
+		for _, n := range l2 {
+			seen[n.st.canon()] = true
+		}
+	}
+	// every state entered by a checked transition counts as visited
+	finalStates := map[string]bool{}
+	for _, lvl := range levels {
+		for _, n := range lvl {
+			for _, e := range events {
+				k := c34Ref(n.st, e).St.canon()
+				if !seen[k] {
+					finalStates[k] = true
+				}
 			}
 		}
 	}
